@@ -6,7 +6,7 @@
    reports which tables of the model's post-state differ from the implementation's and
    whether the outcome class agrees; it also evaluates the invariant monitors on the
    implementation's post-state. All comparison logic lives here, in Gallina. *)
-From SaoVerif Require Import Base.Prelude Base.Ints Model.Did Model.DidSpec Model.DidMon Model.Types.
+From SaoVerif Require Import Base.Prelude Base.Ints Model.Did Model.DidSpec Model.DidMon Model.Types Model.Monad Model.Bank Model.Select Model.Node Model.Storage Model.Sao Model.App.
 
 Definition dec_tables (v : value) : option tables :=
   match v with
@@ -14,16 +14,50 @@ Definition dec_tables (v : value) : option tables :=
   | _ => None
   end.
 
-(* names of the tables on which the model's post-state differs from the implementation's *)
+(* Differences between the model's and the implementation's post-state, by table and,
+   for tables of records, by field: "Table#<field index>" when a record present on both
+   sides differs in that field, "Table+keys" when the key sets differ. *)
+Fixpoint diff_fields (i : nat) (a b : list value) : list nat :=
+  match a, b with
+  | x :: a', y :: b' => (if value_eqb x y then [] else [i]) ++ diff_fields (S i) a' b'
+  | [], [] => []
+  | _, _ => [i]
+  end.
+
+Definition nat_str (n : nat) : string := str_of_Z (Z.of_nat n).
+
+Fixpoint diff_records (name : string) (m i : list value) : list string :=
+  match m, i with
+  | [], [] => []
+  | VL [k1; VL f1] :: m', VL [k2; VL f2] :: i' =>
+      if value_eqb k1 k2 then
+        map (fun n => name +:+ "#" +:+ nat_str n) (diff_fields 0 f1 f2) ++ diff_records name m' i'
+      else [name +:+ "+keys"]
+  | VL [k1; x1] :: m', VL [k2; x2] :: i' =>
+      if value_eqb k1 k2 then (if value_eqb x1 x2 then [] else [name +:+ "#0"]) ++ diff_records name m' i'
+      else [name +:+ "+keys"]
+  | _, _ => [name +:+ "+keys"]
+  end.
+
+Fixpoint dedup_str (l : list string) : list string :=
+  match l with [] => [] | x :: r => if in_list x r then dedup_str r else x :: dedup_str r end.
+
+Definition diff_value (name : string) (m i : value) : list string :=
+  if value_eqb m i then [] else
+  match m, i with
+  | VL (VL [_; _] :: _ as ml), VL il => dedup_str (diff_records name ml il)
+  | VL ml, VL (VL [_; _] :: _ as il) => dedup_str (diff_records name ml il)
+  | VL [VL f1], VL [VL f2] => map (fun n => name +:+ "#" +:+ nat_str n) (diff_fields 0 f1 f2)
+  | _, _ => [name]
+  end.
+
 Definition diff_tables (model impl : tables) : list string :=
-  fold_right (fun kv acc =>
-                match tget kv.1 impl with
-                | Some v => if value_eqb kv.2 v then acc else kv.1 :: acc
-                | None => kv.1 :: acc
-                end) [] model.
+  flat_map (fun kv => match tget kv.1 impl with
+                      | Some v => diff_value kv.1 kv.2 v
+                      | None => [kv.1]
+                      end) model.
 
 (** ** did family *)
-Record Ctx := { cx_height : Z; cx_chain : string; cx_time : Z; cx_seed : Z }.
 Definition dec_ctx (v : value) : option Ctx :=
   match v with
   | VL [VZ h; VS c; VZ t; VZ sd] => Some {| cx_height := h; cx_chain := c; cx_time := t; cx_seed := sd |}
@@ -37,43 +71,110 @@ Definition res_undecodable (what : string) : value := VL [VS "undecodable"; VS w
 Definition tables_eqb (a b : tables) : bool :=
   match diff_tables a b with [] => Nat.eqb (length a) (length b) | _ => false end.
 
-Definition check_did_step (cx : Ctx) (pre : tables) (op : DidOp) (outcome : string) (post : tables) : value :=
-  match did_of_tables pre, did_of_tables post with
-  | Some s, Some ipost =>
-      if negb (op_sane_b op) then VL [VS "outofdomain"; VS "did parser oracle"] else
-      let r := did_handle (cx_chain cx) op s in
-      let '(cls, s', detail) :=
-        match r with
-        | inr s' => ("ok", s', "")
-        | inl e => ("rejected", s, e)
-        end in
-      VL [VS "compared"; VS "did"; VS cls; vbool (String.eqb cls outcome); vLS (diff_tables (did_tables s') post);
-          VS detail;
-          vLS (failed_monitors (did_monitors (cx_chain cx) ipost ++
-                 (* per-operation monitor: a Binding the implementation accepted must carry a
-                    proof text that names the DID (C17, finding D17) *)
-                 [("did.binding_proof_names_did",
-                   match op with
-                   | OpBinding _ m => negb (String.eqb outcome "ok") || proof_names_did m
-                   | _ => true end)]));
-          vbool (negb (tables_eqb pre post))]
-  | _, _ => res_undecodable "did state"
+(** ** select family: direct calls of the selection kernels on the real keeper *)
+Definition dec_cand (v : value) : option Cand :=
+  match v with
+  | VL [VS a; VZ alive; VZ rep] => Some (mkCand a (mkNode "" rep 0 alive [] 0 ""))
+  | _ => None end.
+
+Definition sel_result {A} (r : sel A) (f : A -> value) : value :=
+  match r with SelOk a => f a | SelHang => VS "hang" | SelPanic => VS "panic" end.
+
+Definition mk_res (fam cls : string) (ok : bool) (diff : list string) (detail : string) (mons : list string) (chg : bool) : value :=
+  VL [VS "compared"; VS fam; VS cls; vbool ok; vLS diff; VS detail; vLS mons; vbool chg].
+
+(* monitors of C15 on what the IMPLEMENTATION returned *)
+Definition sel_monitors (s : State) (count : Z) (ignore : list string) (size : Z) (observed : list string) : list (string * bool) :=
+  [ ("sel.nodup", nodup_strb observed);
+    ("sel.not_ignored", forallb (fun a => negb (in_list a ignore)) observed);
+    ("sel.eligible", forallb (fun a => match nodes s !! a with
+                                       | Some n => eligible (pledges s) size (mkCand a n)
+                                       | None => false end) observed);
+    ("sel.count", Z.of_nat (length observed) <=? Z.max 0 count) ].
+
+Definition check_select (cx : Ctx) (pre : tables) (op : value) (post : tables) : value :=
+  match op with
+  | VL [VS "SelRandomIndex"; VZ seed; VZ total; VZ count; observed] =>
+      let m := sel_result (random_index seed total count) vLZ in
+      let mons := match unLZ observed with
+                  | Some l => [("sel.idx_nodup", bool_decide (NoDup l));
+                               ("sel.idx_range", forallb (fun i => (0 <=? i) && (i <? total)) l);
+                               ("sel.idx_count", if (0 <? count) && (count <? total) then Z.of_nat (length l) =? count else true)]
+                  | None => [("sel.idx_returns", false)] end in
+      mk_res "select" "ok" (value_eqb m observed) [] "RandomIndex" (failed_monitors mons) true
+  | VL [VS "SelSelectNodes"; VZ size; VL cands; observed] =>
+      match mapM dec_cand cands with
+      | Some cl =>
+          let m := vLS (map c_addr (select_nodes (Z.to_nat size) cl)) in
+          mk_res "select" "ok" (value_eqb m observed) [] "SelectNodes" [] true
+      | None => res_undecodable "cands"
+      end
+  | VL [VS "SelRandomSP"; VZ count; ign; VZ size; observed] =>
+      match dec_state pre, unLS ign, dec_tables (VL []) with
+      | Some s, Some ignore, _ =>
+          let r := random_sp (nodes s) (pledges s) (default 0 (round s)) (cx_seed cx) count ignore size in
+          let m := sel_result r (fun p => vLS (map c_addr p.1)) in
+          let round' := match r with
+                        | SelOk (_, Some x) => Some x
+                        | _ => Some (default 0 (round s)) end in
+          let diff := match r with SelOk _ => (fun d : list string => d) | _ => (fun _ => []) end
+                      match tget "node.NodeRound" post with
+                      | Some v => if value_eqb v (enc_opt VZ round') then [] else ["node.NodeRound"]
+                      | None => ["node.NodeRound"] end in
+          let mons := match unLS observed with
+                      | Some l => sel_monitors s count ignore size l
+                      | None => [] end in
+          mk_res "select" "ok" (value_eqb m observed) diff "RandomSP" (failed_monitors mons) true
+      | _, _, _ => res_undecodable "select state"
+      end
+  | _ => res_undecodable "select op"
   end.
 
-Definition is_did_op (op : value) : bool :=
+Definition is_select_op (op : value) : bool :=
   match op with
-  | VL (VS n :: _) => in_list n ["Binding"; "Update"; "UpdatePaymentAddress"]
+  | VL (VS n :: _) => in_list n ["SelRandomIndex"; "SelSelectNodes"; "SelRandomSP"]
   | _ => false
+  end.
+
+(** ** application steps (did, node, sao, block boundaries) *)
+Definition family_of_op (op : Op) : string :=
+  match op with
+  | OBeginBlock | OEndBlock => "block"
+  | ODid _ => "did"
+  | ONodeCreate _ | ONodeReset _ | OAddVstorage _ _ | ORemoveVstorage _ _ | OClaimReward _ => "node"
+  | OSend _ _ _ => "bank"
+  | _ => "sao"
+  end.
+
+Definition op_in_domain (op : Op) : bool :=
+  match op with
+  | ODid o => op_sane_b o
+  | _ => true
+  end.
+
+Definition check_app_step (cx : Ctx) (pre : tables) (op : Op) (outcome : string) (post : tables) : value :=
+  match dec_state pre, dec_state post with
+  | Some s, Some ipost =>
+      if negb (op_in_domain op) then VL [VS "outofdomain"; VS "oracle"] else
+      let '(s', out) := step cx s op in
+      let opmon := match op with
+                   | ODid (OpBinding _ m) => [("did.binding_proof_names_did", negb (String.eqb outcome "ok") || proof_names_did m)]
+                   | _ => [] end in
+      mk_res (family_of_op op) (outcome_str out) (String.eqb (outcome_str out) outcome)
+             (diff_tables (enc_state s') post) (outcome_detail out)
+             (failed_monitors (did_monitors (cx_chain cx) (did ipost) ++ opmon))
+             (negb (tables_eqb pre post))
+  | None, _ => res_undecodable "pre-state"
+  | _, None => res_undecodable "post-state"
   end.
 
 Definition check_step (pre ctx op outcome post : value) : value :=
   match dec_tables pre, dec_ctx ctx, unS outcome, dec_tables post with
   | Some pre, Some cx, Some outcome, Some post =>
-      if is_did_op op then
-        match dec_did_op op with
-        | Some o => check_did_step cx pre o outcome post
-        | None => res_undecodable "did op"
-        end
-      else VL [VS "unmodelled"]
+      if is_select_op op then check_select cx pre op post
+      else match dec_op op with
+           | Some o => check_app_step cx pre o outcome post
+           | None => VL [VS "unmodelled"]
+           end
   | _, _, _, _ => res_undecodable "frame"
   end.
